@@ -214,25 +214,40 @@ def native_small_scope():
     d, r = vlib.make_scratch("n")
     try:
         import shutil
-        shutil.copyfile(os.path.join(vlib.VERIF, "contracts/native/verif_native_search.rs"), os.path.join(r, "core/src/verif_native_search.rs"))
         p = os.path.join(r, "core/src/timeline_helpers.rs")
         if not os.path.exists(p):
             return "error", "core/src/timeline_helpers.rs missing"
-        open(p, "a").write("\n#[cfg(test)]\n#[path = \"verif_native_search.rs\"]\nmod verif_native_search;\n")
+        base = open(p).read()
         env = dict(os.environ)
         env["CARGO_NET_OFFLINE"] = "true"
         env["CARGO_TARGET_DIR"] = NATIVE_TARGET
-        cmd = ["cargo", "test", "--offline", "--release", "-p", "mina_core", "--lib", "verif_native_search", "--", "--nocapture"]
-        try:
-            pr = subprocess.run(cmd, cwd=r, env=env, stdout=subprocess.PIPE, stderr=subprocess.STDOUT, text=True, timeout=1800)
-        except subprocess.TimeoutExpired:
-            return "error", "native search timed out"
-        out = pr.stdout
+        cmd = ["cargo", "test", "--offline", "--release", "-p", "mina_core", "--lib", "verif_native", "--", "--nocapture"]
+        out = ""
+        notes = ""
+        for with_structure in (True, False):
+            shutil.copyfile(os.path.join(vlib.VERIF, "contracts/native/verif_native_search.rs"), os.path.join(r, "core/src/verif_native_search.rs"))
+            decl = "\n#[cfg(test)]\n#[path = \"verif_native_search.rs\"]\nmod verif_native_search;\n"
+            if with_structure:
+                shutil.copyfile(os.path.join(vlib.VERIF, "contracts/native/verif_native_structure.rs"), os.path.join(r, "core/src/verif_native_structure.rs"))
+                decl += "#[cfg(test)]\n#[path = \"verif_native_structure.rs\"]\nmod verif_native_structure;\n"
+            open(p, "w").write(base + decl)
+            try:
+                pr = subprocess.run(cmd, cwd=r, env=env, stdout=subprocess.PIPE, stderr=subprocess.STDOUT, text=True, timeout=1800)
+            except subprocess.TimeoutExpired:
+                return "error", "native search timed out"
+            out = pr.stdout
+            if re.search(r"^test \S*small_scope_search \.\.\. (ok|FAILED)", out, re.M):
+                break
+            if with_structure:
+                notes = "(the private-structure half did not compile against this tree: public-API half only)\n"
         m = re.search(r"^test \S*small_scope_search \.\.\. (ok|FAILED)", out, re.M)
-        i = out.find("running 1 test")
-        tail = out[i:] if i >= 0 else out[-3000:]
+        m2 = re.search(r"^test \S*structure_matches_spec \.\.\. (ok|FAILED)", out, re.M)
+        i = out.find("running ")
+        tail = notes + (out[i:] if i >= 0 else out[-3000:])
         if not m:
             return "error", tail[-3000:]
+        if m2 and m2.group(1) == "FAILED":
+            return "disagree", tail[:6000]
         return ("agree" if m.group(1) == "ok" else "disagree"), tail[:6000]
     finally:
         vlib.remove_scratch(d)
